@@ -14,7 +14,7 @@ LEVEL = "exploration"
 RULE = (
     "Hypothesis draws call histories: a workspace seed (baits, access regions, target/antitarget coverage, pooled reference, "
     ".cnr, hand-cut segments, segments with ci/sem columns, a VariantArray, shared filter lists and an ignore tuple are built "
-    "from it) and a sequence of 1..4 steps from {target, antitarget, fix, segment (none/haar/hmm-germline, processes 1/2/3/16), "
+    "from it) and a sequence of 1..4 steps from {target, antitarget, fix, segment (none/haar/hmm/hmm-tumor/hmm-germline, processes 1/2/3/16, outlier filter 10/3/off, min_weight 0/0.3), "
     "segmetrics, call (every method x filter list), genemetrics, breaks, bintest, metrics, export bed/vcf/seg-like/theta/nexus, "
     "center_all on a copy, merge/flatten/subtract/intersection/subdivide/resize, merge/flatten with a caller-supplied combiner dict on an overlapping mixed-strand table, by_arm/by_gene iteration, reseed(numpy, "
     "random)}; half of the sequences repeat an earlier step (with another process count) after a reseed. After every step a deep "
@@ -51,7 +51,10 @@ def step(draw):
     elif op == "fix":
         s.update(gc=draw(st.booleans()), edge=draw(st.booleans()), rmask=draw(st.booleans()))
     elif op == "segment":
-        s.update(method=draw(st.sampled_from(METHODS)), skip_low=draw(st.booleans()), procs=draw(st.sampled_from([1, 2, 3, 16])))
+        # outliers 0 switches the outlier filter off (seeded change C10i: with every filter idle the HMM path then worked on
+        # the caller's own array); min_weight > 0 drops the light bins
+        s.update(method=draw(st.sampled_from(METHODS + ["hmm", "hmm-tumor"])), skip_low=draw(st.booleans()), procs=draw(st.sampled_from([1, 2, 3, 16])),
+                 outliers=draw(st.sampled_from([10, 10, 0, 3])), min_weight=draw(st.sampled_from([0, 0, 0.3])))
     elif op == "segmetrics":
         s.update(loc=draw(st.sampled_from([[], ["mean", "median"], ["p_ttest"]])), spread=draw(st.sampled_from([[], ["stdev", "sem"], ["mad", "iqr", "bivar", "mse"]])),
                  interval=draw(st.sampled_from([[], ["ci"], ["pi"], ["ci", "pi"]])), boots=draw(st.sampled_from([10, 50])),
@@ -237,7 +240,8 @@ def execute(s, ws, procs_override=None):
     if op == "fix":
         return fix.do_fix(ws["tcov"], ws["acov"], ws["ref"], do_gc=s["gc"], do_edge=s["edge"], do_rmask=s["rmask"])
     if op == "segment":
-        return segmentation.do_segmentation(ws["cnr"], s["method"], skip_low=s["skip_low"], processes=procs_override or s["procs"])
+        return segmentation.do_segmentation(ws["cnr"], s["method"], skip_low=s["skip_low"], skip_outliers=s.get("outliers", 10),
+                                            min_weight=s.get("min_weight", 0), processes=procs_override or s["procs"])
     if op == "segmetrics":
         return segmetrics.do_segmetrics(ws["cnr"], ws["cns"], tuple(s["loc"]), tuple(s["spread"]), tuple(s["interval"]), s["alpha"], s["boots"], s["smoothed"])
     if op == "call":
